@@ -3,6 +3,7 @@ Support for the generated token models (`Gen/*TokenGen.lean`) in the parser mona
 Hand-written; part of the trusted base.
 -/
 import Flussab.Model.LineReader
+import Flussab.Model.Rt
 
 namespace Flussab
 /-- A parked `io::Error` as a value (only its presence matters). -/
